@@ -16,7 +16,7 @@ from .facts import Facts
 VERIF = extract.VERIF
 
 REVERTS = {"F1": "C07", "F2": "C07", "F3": "C06", "F4": "C20", "F5": "C12", "F6": "C03", "F7": "C03", "F8": "C13", "F9": "C13",
-           "F10": "C07", "F11": "C09", "F12": "C07", "F13": "C10"}
+           "F10": "C07", "F11": "C09", "F12": "C07", "F13": "C10", "F14": "C06", "F15": "C06"}
 
 
 def corpus(prop):
